@@ -244,42 +244,83 @@ def float_replay(pattern, vacuum, tetrad, phase, request, model):
 
 
 def over_time_args(report):
-    """over_time must not modify the caller's table, lists or per-step arrays (symbolic cells)."""
+    """over_time must not modify the caller's table, lists or per-step arrays (2 symbolic cells per array so that an
+    in-place sort / partition by an estimator is visible); every estimator offered is requested."""
     from aurel import time as atime
-    from aurel.core import AurelCore
-    with patched(modules=('aurel.core', 'aurel.maths', 'aurel.finitedifference')):
-        fd = UninterpretedFD()
-        ctx = Ctx(pre=[], fork=True)
-        with use_ctx(ctx):
-            data = {'it': [3, 1], 'gxx': [symarray('gxxA', ()), symarray('gxxB', ())],
-                    'alpha': [symarray('alA', ()), symarray('alB', ())]}
-            keys_before = list(data.keys())
-            lists_before = {k: (v, list(v)) for k, v in data.items()}
-            elems_before = {(k, i): (a, list(a.flat)) for k in ('gxx', 'alpha') for i, a in enumerate(data[k])}
-            vars_ = ['gammadet', {'double': lambda r: r['gxx'] * 2}]
-            vars_copy = list(vars_)
-            ests = ['max']
-            ests_copy = list(ests)
-            import io
-            import contextlib
-            with contextlib.redirect_stdout(io.StringIO()):
-                out = atime.over_time(data, fd, vars=vars_, estimates=ests, verbose=False)
-            problems = []
-            if list(data.keys()) != keys_before:
-                problems.append('keys of the caller table changed')
-            for k, (lst, cp) in lists_before.items():
-                if data.get(k) is not lst or list(lst) != cp and not all(a is b for a, b in zip(lst, cp)):
-                    problems.append(f'column {k} of the caller table replaced/modified')
-            for (k, i), (a, cp) in elems_before.items():
-                if any(x is not y for x, y in zip(a.flat, cp)):
-                    problems.append(f'array {k}[{i}] modified in place')
-            if vars_ != vars_copy or ests != ests_copy:
-                problems.append('vars/estimates list modified')
-    report.record('over_time leaves data / vars / estimates and the per-step arrays untouched',
-                  'holds' if not problems else 'sat', group='over_time arguments (symbolic cells, 2 steps)',
-                  kind='structural', trivial=True)
-    for p in problems:
-        report.violation('over_time:' + p, p, report.write_replay('over_time_' + p[:20], dict(problem=p)))
+    from . import c14
+    import io
+    import contextlib
+    from symx.sym import explore
+    # percentile-type estimators may partition/sort their input; keep the fork count small: one input column
+    ests = ['median', 'quartile1', 'quartile3', 'max', 'std', 'minabs', 'x1y1z1']
+    problems = set()
+    paths = 0
+
+    def run(c):
+        fd = c14.make_fd()
+        data = {'it': [3, 1], 'gxx': [c14.cell('gxxA'), c14.cell('gxxB')]}
+        for a_ in data['gxx']:
+            c.pre.append(tm.lt(tm.ZERO, a_[0, 0, 0].t))
+            c.pre.append(tm.lt(tm.ZERO, a_[1, 0, 0].t))
+        keys_before = list(data.keys())
+        lists_before = {k: (v, list(v)) for k, v in data.items()}
+        elems_before = {(k, i): (a, list(a.flat)) for k in ('gxx',) for i, a in enumerate(data[k])}
+        vars_ = ['gammadet']
+        vars_copy = list(vars_)
+        ests_ = list(ests)
+        probs = []
+        with contextlib.redirect_stdout(io.StringIO()):
+            try:
+                atime.over_time(data, fd, vars=vars_, estimates=ests_, verbose=False)
+            except Inconclusive:
+                raise
+            except Exception as e:  # noqa
+                probs.append(f'over_time raised {type(e).__name__} on symbolic cells: {e}'[:120])
+        if list(data.keys()) != keys_before:
+            probs.append('keys of the caller table changed')
+        for k, (lst, cp) in lists_before.items():
+            if data.get(k) is not lst or len(lst) != len(cp) or not all(a is b for a, b in zip(lst, cp)):
+                probs.append(f'column {k} of the caller table replaced/modified')
+        for (k, i), (a, cp) in elems_before.items():
+            if any(x is not y for x, y in zip(a.flat, cp)):
+                probs.append(f'per-step array {k}[{i}] modified in place')
+        if vars_ != vars_copy or ests_ != ests:
+            probs.append('vars/estimates list modified')
+        return probs
+    harness_trouble = None
+    try:
+        with patched(modules=('aurel.core', 'aurel.maths', 'aurel.finitedifference')):
+            for c, probs in explore(run, pre=[], backend='inproc', decide_timeout=5, max_paths=3000):
+                paths += 1
+                problems |= set(p for p in probs if 'raised' not in p)
+                tr = [p for p in probs if 'raised' in p]
+                if tr:
+                    harness_trouble = tr[0]
+    except Inconclusive as e:
+        report.inconc('over_time arguments', str(e))
+    report.extra['over_time_paths'] = paths
+    if harness_trouble and not problems:
+        report.notes.append('over_time with every estimator on symbolic cells: ' + harness_trouble)
+    report.record('over_time leaves data / vars / estimates and the per-step arrays untouched (all estimators requested)',
+                  'unsat' if not problems else 'sat', backend='z3py-inproc', sha=f'{paths}p', group='over_time arguments (2 symbolic cells per array, 2 steps)',
+                  kind='structural')
+    if problems:
+        # float replay with every estimator
+        from aurel.finitedifference import FiniteDifference
+        param = {'xmin': 0.0, 'ymin': 0.0, 'zmin': 0.0, 'dx': 1.0, 'dy': 1.0, 'dz': 1.0, 'Nx': 6, 'Ny': 6, 'Nz': 6}
+        fdr = FiniteDifference(param, verbose=False)
+        rng = np.random.default_rng(1)
+        data = {'it': [3, 1], 'gxx': [rng.uniform(1, 2, (6, 6, 6)), rng.uniform(1, 2, (6, 6, 6))]}
+        cp = [a.copy() for a in data['gxx']]
+        with contextlib.redirect_stdout(io.StringIO()):
+            atime.over_time(data, fdr, vars=['gammadet'], estimates=ests, verbose=False)
+        changed = any(not np.array_equal(a, b) for a, b in zip(data['gxx'], cp))
+        for p in sorted(problems):
+            if changed or 'array' not in p:
+                report.violation('over_time:' + p.split('[')[0], p + (' (float replay: caller arrays differ after over_time)' if changed else ''),
+                                 report.write_replay('over_time_' + p[:20], dict(problem=p, float_replay_changed=changed)))
+            else:
+                report.harness_errors.append(f'over_time: symbolic run says "{p}", float replay sees no change')
 
 
 def save_read_args(report):
